@@ -5,12 +5,13 @@ without an index, sort, removeObsList for every index subset, removeFirstObs /
 removeLastObs) executed on real Track objects.  Every observation carries a
 unique tag (z = tag, x = lattice(tag)) and two analytical features that are
 functions of the tag; root tracks enumerate every weak-order pattern of
-timestamps (duplicates forced).  In every distinct reached state all pure
-operators (extract, extractSpanTime, +, % k, % pattern, > k, < k) are executed
-and compared with the list comprehension that defines them, and the source
-snapshot is compared before / after each call.
+timestamps (duplicates forced).  In every distinct state that the BFS expands
+(reached below the depth bound) all pure operators (extract, extractSpanTime, +,
+% k, % pattern, > k, < k) are executed and compared with the list comprehension
+that defines them, and the source snapshot is compared before / after each call.
 """
 import calendar
+import hashlib
 import itertools
 
 from mc import alpha
@@ -24,11 +25,11 @@ from tracklib.core.obs_time import ObsTime
 ID = "C04"
 LEVEL = "model_checking"
 TECHNIQUE = ("explicit-state BFS over histories of insertObs/sort/removeObsList/removeFirstObs/removeLastObs executed on "
-             "real Track objects (full-state hashing); in every distinct reached state every pure sequence operator is "
+             "real Track objects (full-state hashing); in every distinct expanded state every pure sequence operator is "
              "executed and compared with its defining list comprehension over the tagged observations, source snapshot "
              "compared before/after")
 RULE = ("cases = (state, event) pairs: mutating transitions of the BFS plus the pure operator calls fired once in every "
-        "distinct state; distinct because states are de-duplicated on their complete content inside the BFS of one root, "
+        "distinct expanded state; distinct because states are de-duplicated on their complete content inside the BFS of one root, "
         "every root is a different (timestamp pattern, root id) and carries its root id in the y coordinate of every "
         "observation, and the event list of a state has no repetition; non-trivial = the state holds >= 2 equal "
         "timestamps, or the event inserts before the first / after the last observation, or an argument lies beyond the "
@@ -83,10 +84,15 @@ OBLIGATIONS = {
 UNIT = [1.0, 3.0, 1.0, 0.5]          # seconds per time unit; variant 1 crosses the year end, 2 the leap day, 3 uses ms
 FEATS = ["f", "g"]
 PATTERNS = [[True], [False], [True, False], [False, True, True], [1, 0, 0], [0, 0, 0, 0, 0, 0, 0, 1]]
+# History depth per root size.  A history is a sequence of at most `depth` events the last of which may be a pure
+# operator: mutating events and pure operators are both fired in every state reached by fewer than `depth` mutating
+# events (standard BFS bound; states first reached at the bound are checked as results but not expanded).  The number of
+# weak-order patterns grows as 1,1,3,13,75,541,4683 and a state costs ~(2m+3)^2 time spans, hence the smaller depth
+# for the larger sizes.
 TIERS = {
-    "quick": {"pattern_sizes": [0, 1, 2, 3, 4, 5], "depth": 2, "depth_by_size": {},
+    "quick": {"depth_by_size": {0: 3, 1: 3, 2: 3, 3: 3, 4: 3, 5: 1},
               "insertion_sizes": [7, 8, 9, 15, 16, 17]},
-    "thorough": {"pattern_sizes": [0, 1, 2, 3, 4, 5, 6], "depth": 3, "depth_by_size": {},
+    "thorough": {"depth_by_size": {0: 4, 1: 4, 2: 4, 3: 4, 4: 3, 5: 3, 6: 1},
                  "insertion_sizes": [7, 8, 9, 15, 16, 17, 31, 32, 33, 64]},
 }
 
@@ -95,8 +101,7 @@ def bounds(tier, variant):
     T = TIERS[tier]
     roots = _roots(tier, variant)
     return {"root_time_patterns": "every weak-order pattern (timestamps 2*rank) of each size",
-            "pattern_root_sizes": T["pattern_sizes"], "history_depth": T["depth"],
-            "depth_by_size": T["depth_by_size"],
+            "history_depth_by_root_size": {str(k): v for k, v in T["depth_by_size"].items()},
             "insertion_search_root_sizes": T["insertion_sizes"], "insertion_search_depth": 1,
             "roots": len(roots), "time_unit_s": UNIT[variant], "first_timestamp": alpha.t0(variant),
             "events": "insertObs(instant) for every instant -1..max+1 (sorted states), sort, removeObsList(every subset), "
@@ -148,10 +153,9 @@ def _roots(tier, variant):
     """List of root descriptions {rid, times (units), kind, depth}; deterministic."""
     T = TIERS[tier]
     roots = []
-    for n in T["pattern_sizes"]:
+    for n in sorted(T["depth_by_size"]):
         for v in alpha.order(variant, weak_orders(n)):
-            roots.append({"times": [2 * r for r in v], "kind": "pattern",
-                          "depth": T["depth_by_size"].get(n, T["depth"])})
+            roots.append({"times": [2 * r for r in v], "kind": "pattern", "depth": T["depth_by_size"][n]})
     for n in T["insertion_sizes"]:
         for name, times in _insertion_shapes(n):
             roots.append({"times": times, "kind": "insertion", "depth": 1})
@@ -225,9 +229,17 @@ def _dico(t):
 
 
 def canon(t):
-    d = _dico(t)
-    names = tuple(d.items()) if d is not None else tuple(names_of(t))
-    return (names, tuple(snap(t)))
+    try:
+        d = _dico(t)
+        names = tuple(d.items()) if d is not None else tuple(names_of(t))
+        return (names, tuple(snap(t)))
+    except Exception as e:        # a broken object is reported by check_event and never expanded
+        return ("unreadable", type(e).__name__)
+
+
+def _hash64(k):
+    """repr-based: hash() of a tuple collides on -1.0 / -2.0, which variant 1 produces as coordinates."""
+    return int.from_bytes(hashlib.blake2b(repr(k).encode(), digest_size=8).digest(), "big")
 
 
 def clone(t):
@@ -264,6 +276,20 @@ def _subsets(n):
             yield c
 
 
+def _listing(variant, c):
+    """Order in which an index set is handed to removeObsList: v0 descending, v1/v2 rotated, v3 first two swapped."""
+    c = list(c)
+    if variant == 0:
+        c = c[::-1]
+    elif variant == 1:
+        c = c[1:] + c[:1]
+    elif variant == 2:
+        c = c[-1:] + c[:-1]
+    elif len(c) >= 3:
+        c[0], c[1] = c[1], c[0]
+    return tuple(c)
+
+
 def u_range(variant, S):
     """Instants -1 .. max+1 (time units) relative to the state."""
     if not S:
@@ -287,7 +313,7 @@ def events_of(root):
             ev += [("first",), ("last",)]
         if not insertion_only:
             for c in _subsets(n):
-                ev.append(("rm",) + tuple(alpha.order(variant, c)))
+                ev.append(("rm",) + _listing(variant, c))
         return ev
     return events
 
@@ -462,18 +488,17 @@ def make_partner(which, track, root):
     return p
 
 
-def pure_ops(variant, S, light=False):
+def pure_ops(variant, S):
     """The pure operator calls fired in a state whose snapshot is S (JSON-able lists, no repetition)."""
     n = len(S)
     ops = []
-    if not light:
-        for i in range(0, n + 1):
-            for j in range(i - 1, n):
-                ops.append(["extract", i, j])
-        U = u_range(variant, S)
-        for a in U:
-            for b in U:
-                ops.append(["span", a, b])
+    for i in range(0, n + 1):
+        for j in range(i - 1, n):
+            ops.append(["extract", i, j])
+    U = u_range(variant, S)
+    for a in U:
+        for b in U:
+            ops.append(["span", a, b])
     for p in PARTNERS:
         ops.append(["add", p])
     for k in range(1, n + 2):
@@ -613,7 +638,7 @@ def _col(track, nm, default):
     return default
 
 
-def check_state(root, track, hist, ctx, light=False):
+def check_state(root, track, hist, ctx):
     """All pure operators in one state."""
     variant = root["variant"]
     S = snap(track)
@@ -621,7 +646,7 @@ def check_state(root, track, hist, ctx, light=False):
     if has_dups(S):
         ctx.oblige("duplicate_timestamps_state")
     base = _case(root, hist)
-    for op in pure_ops(variant, S, light):
+    for op in pure_ops(variant, S):
         check_op(root, track, S, names, op, dict(base, op=op), ctx)
         ctx.transition()
 
@@ -637,8 +662,8 @@ def explore_root(root, ctx):
     variant = root["variant"]
     mk = make_root(root)
     ap = apply_event_of(root)
+    depth = root["depth"]
     evaluated = set()
-    light_below = root["kind"] == "insertion"
 
     r0 = mk()
     evaluated.add(canon(r0))
@@ -651,25 +676,35 @@ def explore_root(root, ctx):
             return False
         k = canon(after)
         if k not in evaluated:
-            evaluated.add(k)
-            check_state(root, after, hist + (ev,), ctx, light=light_below)
+            evaluated.add(k)          # first reached here, at depth len(hist)+1: expanded by the BFS iff below the bound
+            if len(hist) + 1 < depth:
+                check_state(root, after, hist + (ev,), ctx)
         return True
 
-    bfs(ctx, mk, events_of(root), ap, clone, canon, check, root["depth"])
+    bfs(ctx, mk, events_of(root), ap, clone, canon, check, depth, hasher=_hash64)
 
 
 def _weight(root, tier):
+    """Rough cost model (seconds measured on single roots) used only to balance the shards."""
     n = len(root["times"])
     if root["kind"] == "insertion":
-        return 0.02 * n * n
+        return 0.003 * n * n
     d = root["depth"]
-    return (2.0 ** n + 12) ** (d - 1) * (n + 1) ** 2 / 50.0 + 1
+    T = root["times"]
+    srt = all(T[i] <= T[i + 1] for i in range(n - 1))
+    if d <= 1:
+        return 0.0006 * (n + 1) ** 3 + 0.005
+    if d == 2:
+        return 0.004 * (n + 1) ** 3 + 0.01
+    if d == 3:
+        return 0.008 * (n + 1) ** 3 + 0.01
+    return (0.5 if srt else 0.05) * (n + 1) ** 3
 
 
 def plan(tier, variant):
     roots = _roots(tier, variant)
     total = sum(_weight(r, tier) for r in roots)
-    target = total / (96.0 if tier == "quick" else 192.0)
+    target = total / (120.0 if tier == "quick" else 240.0)
     shards, cur, w = [], [], 0.0
     for r in roots:
         cur.append(r)
